@@ -33,6 +33,8 @@ def programs_for(seed, tier):
     from . import corpus
     for t, states in corpus.curated():
         progs.append(P.Program(len(progs), t, states))
+    for t, states, only, cls in corpus.dedicated():
+        progs.append(P.Program(len(progs), t, states, only=only, cls=cls))
     while len(progs) < n:
         r = random.Random(rng.getrandbits(64))
         progs.append(P.make_program(len(progs), r, depth=r.choice([2, 3, 3, 4])))
